@@ -68,7 +68,7 @@ def drive(w, stream):
     return steps, csp
 
 
-def sample_events(w, t, frames, n=None, us=True, hdr=True):
+def sample_events(w, t, frames, n=None, us=True, hdr=True, order_rnd=None):
     n = len(frames) if n is None else n
     evs = [w.perf(1, t, ti=False, us=us)]
     if hdr:
@@ -78,6 +78,10 @@ def sample_events(w, t, frames, n=None, us=True, hdr=True):
         fr.append(77)          # words beyond the header count
     for i in range(0, len(fr), 4):
         evs.append(w.udata(t, fr[i:i + 4]))
+    if order_rnd is not None and hdr and len(evs) > 2 and order_rnd.random() < 0.35:
+        # the header record is not always the first nested record: it may come after some / all of the data records
+        h = evs.pop(1)
+        evs.insert(order_rnd.randrange(1, len(evs) + 1), h)
     evs.append(w.perf(2, t, ti=False, us=us))
     return evs
 
@@ -168,7 +172,7 @@ def run(ctx):
                 depth = rnd.choice([0, 1, 3, 4, 5, 8, 13, 20] if ctx.quick else [0, 1, 3, 4, 5, 8, 13, 33, 64])
                 frames = [rnd.randrange(0, 14) for _ in range(depth)]
                 n = rnd.choice([depth, depth, max(depth - 2, 0), depth + 3])
-                items.append(sample_events(w, t, frames, n=n, us=rnd.random() < 0.85, hdr=rnd.random() < 0.9))
+                items.append(sample_events(w, t, frames, n=n, us=rnd.random() < 0.85, hdr=rnd.random() < 0.9, order_rnd=rnd))
             else:
                 items.append(g.ord_single(t))
         stream = [e for it in items for e in it]
